@@ -49,3 +49,37 @@ Example C08_mpeg1video_example :
   snd (dec_run dinit [mkPkt 1 0 true [0;0;16;0;1;2]; mkPkt 2 0 true [0;0;8;0;3;4]; mkPkt 9 0 true [0;0;24;0;0;0;1]])
   = [DMore; DFrame [1;2;3;4]; DErr].
 Proof. vm_compute. reflexivity. Qed.
+
+(* ---- the translated kernels (tools/go2coq, regenerated from the Go source on every run) ----
+   The length test and caps of rtpmpeg1video/decoder.go - len(pkt.Payload) < 4, the accumulation d.fragmentsSize +=
+   len(pkt.Payload[4:]) and its cap > maxFrameSize (two copies: end and middle fragments), the slice-buffer cap
+   (d.sliceBufferSize + addSize) > maxFrameSize of Decode and d.sliceBufferSize += addSize - ARE the tests of
+   Model.decode_slice / dec: nlen pl <? 4, cap <? dfsize + nlen body, cap <? dssize + nlen s (the constant is
+   GVG.Consts' mpeg1video_max_frame_size). *)
+From Coq Require Import ZArith.
+From GVG Require Import Kern.
+From GV_mpeg1video Require Import BridgeLib Bridge.
+Open Scope Z_scope.
+
+Theorem C08_mpeg1video_kernels_are_the_code : forall (pl body s : bytes) (fs ss : N),
+  Z.of_N (fs + nlen body) < i64max -> Z.of_N (ss + nlen s) < i64max ->
+  k_mpeg1video_dec_short (Z.of_N (nlen pl)) = (nlen pl <? 4)%N /\
+  k_mpeg1video_dec_acc1 (Z.of_N fs) (Z.of_N (nlen body)) = Z.of_N (fs + nlen body) /\
+  k_mpeg1video_dec_cap1 (k_mpeg1video_dec_acc1 (Z.of_N fs) (Z.of_N (nlen body))) (Z.of_N cap) = (cap <? fs + nlen body)%N /\
+  k_mpeg1video_dec_acc2 (Z.of_N fs) (Z.of_N (nlen body)) = Z.of_N (fs + nlen body) /\
+  k_mpeg1video_dec_cap2 (k_mpeg1video_dec_acc2 (Z.of_N fs) (Z.of_N (nlen body))) (Z.of_N cap) = (cap <? fs + nlen body)%N /\
+  k_mpeg1video_dec_slicecap (Z.of_N ss) (Z.of_N (nlen s)) (Z.of_N cap) = (cap <? ss + nlen s)%N /\
+  k_mpeg1video_dec_sliceacc (Z.of_N ss) (Z.of_N (nlen s)) = Z.of_N (ss + nlen s).
+Proof. exact caps_kernels_are_the_code. Qed.
+Print Assumptions C08_mpeg1video_kernels_are_the_code.
+
+(* exactly maxFrameSize bytes are accepted, one more is not (all three caps); a 3-byte payload is too short, 4 is not *)
+Example C08_mpeg1video_example_kernels :
+  k_mpeg1video_dec_cap1 (k_mpeg1video_dec_acc1 (Z.of_N cap - 10) 10) (Z.of_N cap) = false /\
+  k_mpeg1video_dec_cap1 (k_mpeg1video_dec_acc1 (Z.of_N cap - 10) 11) (Z.of_N cap) = true /\
+  k_mpeg1video_dec_cap2 (k_mpeg1video_dec_acc2 (Z.of_N cap - 10) 10) (Z.of_N cap) = false /\
+  k_mpeg1video_dec_cap2 (k_mpeg1video_dec_acc2 (Z.of_N cap - 10) 11) (Z.of_N cap) = true /\
+  k_mpeg1video_dec_slicecap (Z.of_N cap - 10) 10 (Z.of_N cap) = false /\
+  k_mpeg1video_dec_slicecap (Z.of_N cap - 10) 11 (Z.of_N cap) = true /\
+  k_mpeg1video_dec_short 3 = true /\ k_mpeg1video_dec_short 4 = false /\ Z.of_N cap = 1048576.
+Proof. vm_compute. repeat split. Qed.
